@@ -38,6 +38,8 @@ struct Cb {
     items: Option<J>,
     built: Option<J>,
     built_stolen: Option<J>,
+    elab: Option<J>,
+    elab_stolen: i64,
     crate_name: String,
 }
 
@@ -54,6 +56,8 @@ fn main() {
         items: None,
         built: None,
         built_stolen: None,
+        elab: None,
+        elab_stolen: 0,
         crate_name: String::new(),
     };
     rustc_driver::run_compiler(&args, &mut cb);
@@ -106,6 +110,26 @@ impl rustc_driver::Callbacks for Cb {
             bodies.push((*d, steal.borrow().clone()));
         }
         self.built_stolen = Some(J::Arr(stolen));
+        // 2b. drop-elaborated MIR, taken right away: later queries (coroutine layout, lints) may
+        //     run the optimisation pipeline on some bodies, which steals this stage
+        let mut elab_bodies: Vec<(LocalDefId, Body<'tcx>)> = Vec::new();
+        let mut elab_stolen = 0i64;
+        // closures and coroutine bodies first (deepest first): elaborating a parent may ask for the
+        // layout of a coroutine it creates, which optimises (and steals) the coroutine's body
+        let mut elab_order = owners.clone();
+        elab_order.sort_by_key(|d| {
+            let depth = tcx.def_path(d.to_def_id()).data.len();
+            std::cmp::Reverse((matches!(tcx.def_kind(*d), DefKind::Closure), depth))
+        });
+        for d in &elab_order {
+            let steal = tcx.mir_drops_elaborated_and_const_checked(*d);
+            if steal.is_stolen() {
+                elab_stolen += 1;
+                continue;
+            }
+            elab_bodies.push((*d, steal.borrow().clone()));
+        }
+        self.elab_stolen = elab_stolen;
         // 3. HIR items
         self.items = Some(items_view(tcx));
         let mut fns = Vec::new();
@@ -117,6 +141,14 @@ impl rustc_driver::Callbacks for Cb {
             fns.push(fn_view(tcx, *d, body));
         }
         self.built = Some(J::Arr(fns));
+        let mut efns = Vec::new();
+        for (d, body) in &elab_bodies {
+            if proc_macro {
+                break;
+            }
+            efns.push(fn_view(tcx, *d, body));
+        }
+        self.elab = Some(J::Arr(efns));
         rustc_driver::Compilation::Continue
     }
 
@@ -131,27 +163,6 @@ impl rustc_driver::Callbacks for Cb {
         if skip_crate(&self.crate_name) || self.built.is_none() {
             return rustc_driver::Compilation::Continue;
         }
-        let mut fns = Vec::new();
-        let mut stolen = 0i64;
-        let proc_macro = tcx.crate_types().iter().any(|t| format!("{:?}", t) == "ProcMacro");
-        for d in tcx.hir_body_owners() {
-            if proc_macro {
-                break;
-            }
-            if !matches!(
-                tcx.def_kind(d),
-                DefKind::Fn | DefKind::AssocFn | DefKind::Closure
-            ) {
-                continue;
-            }
-            let steal = tcx.mir_drops_elaborated_and_const_checked(d);
-            if steal.is_stolen() {
-                stolen += 1;
-                continue;
-            }
-            let body = steal.borrow().clone();
-            fns.push(fn_view(tcx, d, &body));
-        }
         let crate_types: Vec<J> = tcx
             .crate_types()
             .iter()
@@ -165,8 +176,8 @@ impl rustc_driver::Callbacks for Cb {
             ("items", self.items.take().unwrap_or(J::Null)),
             ("built", self.built.take().unwrap_or(J::Null)),
             ("built_stolen", self.built_stolen.take().unwrap_or(J::Null)),
-            ("elab", J::Arr(fns)),
-            ("elab_stolen", J::Int(stolen as i128)),
+            ("elab", self.elab.take().unwrap_or(J::Null)),
+            ("elab_stolen", J::Int(self.elab_stolen as i128)),
         ]);
         let path = format!(
             "{}/{}.{}.{}.json",
